@@ -903,7 +903,7 @@ theorem after_irrelevant_of_set {σ α} (X : Inp → Res σ α)
   have ey : ({ i with after := y } : Inp) = (i.dropAfter).setAfter y := rfl
   rw [ex, ey, hx, hy, Res.mapInp_drop_set, Res.mapInp_drop_set]
 
-theorem blen_eq_zero (l : List Char) : blen l = 0 ↔ l = [] := by
+theorem blen_eq_zero_iff (l : List Char) : blen l = 0 ↔ l = [] := by
   cases l with
   | nil => simp [blen]
   | cons c cs =>
@@ -912,7 +912,7 @@ theorem blen_eq_zero (l : List Char) : blen l = 0 ↔ l = [] := by
 
 theorem Inp.atEnd_iff (i : Inp) : i.atEnd = true ↔ i.pos = i.endPos := by
   unfold Inp.atEnd Inp.endPos
-  rw [List.isEmpty_iff, ← blen_eq_zero]
+  rw [List.isEmpty_iff, ← blen_eq_zero_iff]
   omega
 
 theorem Inp.atStart_iff (i : Inp) : i.atStart = true ↔ i.pos = i.start := by
